@@ -213,7 +213,7 @@ async def random_session(rng: Rng, n_ops: int, profile: str, box: list | None = 
     if profile == "backlog":
         return await backlog_session(rng, s)
     ncons = {"fifo": 1, "race": 2}.get(profile, rng.choice([1, 2, 3]))
-    topics_pool = ["ta", "tb", "tc"]
+    topics_pool = ["ta", "tb", "tab"]       # "tab": foreign to every filter used, but "ta" is a prefix of it
     for c in range(ncons):
         cat = "NORMAL" if c == 0 or profile in ("fifo", "race") else rng.choice(["NORMAL", "DELAYED", "DEAD", "DEAD"])
         tp = None if profile == "race" else rng.choice([None, None, ["ta"], ["ta", "tb"]])
@@ -224,7 +224,7 @@ async def random_session(rng: Rng, n_ops: int, profile: str, box: list | None = 
         if r < 0.38 or not s.msgs:
             nid += 1
             prio = 5 if profile in ("fifo",) else rng.choice(PRIOS + [5, 5])
-            await s.enqueue(f"m{nid}", rng.choice(topics_pool[:2] if profile != "race" else ["ta"]), prio,
+            await s.enqueue(f"m{nid}", rng.choice(topics_pool if profile != "race" else ["ta"]), prio,
                             rng.choice(["", "{}", '{"x": 1}']), gen_pd(rng, CLOCK.us, profile))
         elif r < 0.68:
             c = rng.randrange(ncons)
